@@ -114,6 +114,31 @@ def _state(s):
     return lengths, fixed
 
 
+def _curved_getters(s):
+    """Every public property of a curved shape that can be read (name -> value); reading them also fills any cache."""
+    out = {}
+    for n in sorted(dir(type(s))):
+        if n.startswith("_") or not isinstance(getattr(type(s), n, None), property):
+            continue
+        try:
+            out[n] = getattr(s, n)
+        except (NotImplementedError, RuntimeError, AttributeError, ImportError):
+            pass
+    return out
+
+
+def _fresh_curved(s):
+    import coxeter.shapes as S
+
+    k = type(s).__name__
+    c = list(s.centroid)
+    if k in ("Circle", "Sphere"):
+        return getattr(S, k)(s.radius, c)
+    if k == "Ellipse":
+        return S.Ellipse(s.a, s.b, c)
+    return S.Ellipsoid(s.a, s.b, s.c, c)
+
+
 def make_body(kind, prop):
     inner = _make_body(kind, prop)
 
@@ -151,6 +176,8 @@ def _make_body(kind, prop):
             raise
         L0, Fx0 = _state(s)
         L0, Fx0 = list(L0), list(Fx0)
+        if kind in CURVED:
+            _curved_getters(s)  # a user may have looked at anything before assigning: whatever is cached must not go stale
         if is_center:
             t = [V["t0"], V["t1"], V["t2"]]
             setattr(s, prop, H.arr(t))
@@ -202,6 +229,13 @@ def _make_body(kind, prop):
             return
         H.ok("positive_target_accepted")
         H.claim_eq("readback", getattr(s, prop), v)
+        if kind in CURVED and not (kind == "Ellipsoid" and prop == "surface_area"):
+            # after the assignment every public answer is that of a shape freshly built from the current parameters
+            # (not for Ellipsoid.surface_area: its scale factor is a root of a quotient of elliptic-integral values, and the
+            # comparison of the rescaled integrals does not finish within the budget)
+            from .C16 import _same
+
+            _same(H, "as_fresh_shape", _curved_getters(s), _curved_getters(_fresh_curved(s)))
         if prop in single:
             # a single semi-axis / the rounding radius: only that parameter changes (documented meaning of the attribute)
             idx = single[prop]
